@@ -115,9 +115,10 @@ def canonical_problem(s):
 
 class Prop:
     def __init__(self, pid, streams, ops, project, oracle=None, features=ALL_FEATURES, note="", design_ref="", configs=None,
-                 thorough_configs=None, gen_env=None):
+                 thorough_configs=None, gen_env=None, stream_tier=None):
         self.pid = pid
         self.gen_env = gen_env or {}
+        self.stream_tier = stream_tier    # when set, the streams are generated at this tier whatever the tier of the run
         # configs: list of (label, feature tuple); every config runs the same streams against its own harness build
         self.configs = configs or [("all", features)]
         self.thorough_configs = thorough_configs or self.configs
@@ -900,6 +901,7 @@ PROPS = {
                 + [("hist", None), ("match", None), ("rel", None), ("parts", None), ("pairs", None), ("layoutnames", None)],
                 None, proj_c20, orc_c20, design_ref="4/C20",
                 gen_env={"GEN_LIKELY": "0"},     # histories without maximize/minimize: those calls exist only with the feature
+                stream_tier="quick",             # thorough = all eight feature builds on the quick-size streams (8 x 3M requests)
                 configs=[("none", ()), ("likely", ("likely",)), ("all", ALL_FEATURES)],
                 thorough_configs=[("none", ()), ("likely", ("likely",)), ("serde", ("serde",)), ("macros", ("macros",)),
                                   ("likely-serde", ("likely", "serde")), ("likely-macros", ("likely", "macros")),
@@ -1026,7 +1028,7 @@ def gen_requests(harness, cfg, tier, seed, workdir):
             if ops:
                 env["GEN_OPS"] = ops
             with open(p, "w") as fo:
-                r = subprocess.run([harness, "gen", stream, tier, str(seed)], stdout=fo, stderr=subprocess.PIPE, env=env)
+                r = subprocess.run([harness, "gen", stream, cfg.stream_tier or tier, str(seed)], stdout=fo, stderr=subprocess.PIPE, env=env)
             if r.returncode != 0:
                 raise RuntimeError("generator %s failed: %s" % (stream, r.stderr.decode()))
         files.append((stream, p))
